@@ -29,13 +29,13 @@ claim("C16", "reference-model monitor: integer-lattice rectangles vs the real Ge
 
 claim("C08", "post-condition monitors on GeoBox.from_bbox / from_geopolygon / zoom_to(resolution=) evaluated on every call (direct stratified workload + calls from compute_output_geobox)",
       "Arithmetic on the returned GeoBox only: requested pixel size and sign, per-side coverage up to tol, excess < 1 px + tol, anchor alignment unless floating/tight, "
-      "exact shape and < 1 px displacement for shape requests; ~3e4 (quick) / 2e6 (thorough) judged calls over resolution signs x anchors x tight x tol x magnitudes 1e-3..1e7 px "
+      "exact shape and < 1 px displacement for shape requests; ~3e4 (quick) / 2e6 (thorough) judged calls over resolution signs x anchors (incl. XY fractions) x tight x tol x magnitudes 1e-3..1e9 px "
       "with start coordinates placed on either side of every tolerance boundary.",
-      _TB + " eps = 1e-9*max(1,|coord|/pixel).", "DESIGN.md 5/C08")
+      _TB + " Round-off allowance 1e-9 px + 1e-14 x pixel index (a few ulps).", "DESIGN.md 5/C08")
 
 claim("C14", "reference-model monitor: analytic grid model vs real GridSpec on an index window, plus self-consistency (pairwise disjointness, shared edges), seeded point/bbox/polygon queries and slippy-map formula",
       "Each seeded grid specification (4 flip combinations x resolution signs x origins up to 1e6 x tile shapes 1..4000) is examined on [-4,4]^2 + far indices: footprints vs model, "
-      "interior-disjoint, neighbours share edges, 40 points per grid incl. edges/corners, bbox queries (random and exactly tile-aligned, edge contacts must be excluded), polygon queries in the "
+      "interior-disjoint, neighbours share edges, 40 points per grid incl. edges/corners, bbox queries (random, exactly tile-aligned with edge contacts excluded, aligned +- a sliver), polygon / multi-part / holed queries in the "
       "grid CRS and in EPSG:4326 (must/may sets by shapely areas), rebuild from a sample tile, web_tiles z<=22 against the slippy-map formula and the world-bounds query.",
       _TB + " Cross-CRS polygon queries are densified so vertex-wise projection follows the true image.", "DESIGN.md 5/C14")
 
@@ -48,46 +48,46 @@ claim("C01", "exception/result monitor over the enumerated product operation x C
 claim("C07", "post-condition monitors on Geometry.to_crs / Geometry.segmented / densify (aliases rebound) with the oracle's own pyproj transformer and plain-numpy edge geometry; there-and-back differential",
       "Every call is judged: vertices compared one by one with a pyproj transformer built by the oracle (calibrated bit-identical; tolerance 1e-12 relative), type / part / ring / vertex "
       "order preserved, same-CRS returns the same object, no-CRS refuses; densification: no edge longer than the resolution, original vertices an in-order subsequence, added vertices on "
-      "their edge (1e-9 relative), area and length unchanged; round trips bounded by 1e-6 m (1e-2 m with a datum shift). 11 geometry kinds, edges in 16 directions incl. on the axes.",
+      "their edge (1e-9 relative), area and length unchanged (up to 9000 points per edge); round trips bounded by 1e-6 m (1e-2 m with a datum shift). 11 geometry kinds, edges in 16 directions incl. on the axes; look-alike CRS pairs and 260 one-off per-tile projections in one process; wrapdateline=True is judged like an ordinary call when every vertex is >= 10 degrees from the antimeridian (known finding K6 classified by mechanism).",
       _TB + " PROJ is shared between library and oracle (a PROJ bug is invisible); empty LineString/Polygon inputs are outside the statement's kinds and only counted.", "DESIGN.md 5/C07")
 
 claim("C19", "relation checker over seeded families of near-identical values (==, hash, pickle/copy, dask tokens); hook on the transformer cache judged with probe points; CRS histories compared with pristine subprocesses",
       "A: all pairs/triples of 8-20-member families for the 10 value types (reflexive, symmetric, transitive, equal=>equal hash, unequal=>different token, clone=>equal+same token); "
       "B: 8 construction routes x seeded EPSG pool pairwise equal where pyproj says the route is lossless; C: histories (construct/drop/gc/transformer/re-construct) whose every "
       "str/hash/token is compared with per-route pristine interpreters, and every transformer handed out by the id-keyed cache is compared on probe points with one built by the oracle; "
-      "a construct-transform-drop churn exceeds any plausible cache bound. Known findings K1-K3 are classified by mechanism (known_findings.json).",
+      "a construct-transform-drop churn exceeds any plausible cache bound; look-alike CRS pairs (datum-less PROJ string / registered CRS) go through the same cache in both orders; D: read-only use (a battery of queries and accessors per type) must leave token, hash and equality with an earlier clone unchanged. Known findings K1-K3 are classified by mechanism (known_findings.json).",
       _TB + " pyproj decides losslessness of routes; PYTHONHASHSEED pinned.", "DESIGN.md 5/C19")
 
 claim("C02", "post-condition monitors on every GeoBox / GCPGeoBox view operation + single-box consistency monitor (inverse maps, extent, bounding box, labels, resolution), reference computed with plain numpy matrices; seeded operation chains",
       "Each of 18 view operations (and scaled_down_geobox) is judged on every call against its contract written relative to the source box (probe pixels mapped through numpy 3x3 "
       "matrices, expected shape from numpy indexing semantics, covering where documented), and every resulting box is checked for internal consistency; chains of 1-6 operations over 7 "
-      "affine families, 1xN/Nx1 shapes, translations to 1e7 and GCP boxes (affine and mildly non-affine control points; tolerance from measured residual and non-affinity).",
+      "affine families, 1xN/Nx1 shapes, translations to 1e7 and GCP boxes (affine and mildly non-affine control points; tolerance from measured residual and non-affinity; reported pixel size vs one pixel step).",
       _TB + " zoom_to(int) pixel count is logged, not judged; regions given as geometries are C16's.", "DESIGN.md 5/C02")
 
 claim("C03", "post-condition monitor on compute_reproject_roi: brute force over all destination pixel centres with an independent transform (numpy solve / the oracle's own pyproj transformer)",
       "For each pair every destination pixel centre is mapped to the source independently; needed pixels must lie in roi_dst and their source locations in roi_src, regions inside their "
       "images (source up to the next multiple of read_shrink), empty when separated by more than padding(+align), scale = min(scale2) with scale2 checked exactly (scale+translation), as "
       "uniform scale (similarity) or bracketed by Jacobian singular values, read_shrink integer >=1 not exceeding scale by more than 1e-3, reported transform cross-checked. ~3.7e3 pairs "
-      "quick / 7e4 thorough over 10 same-CRS families x placements x padding/align and 10 CRSs.",
+      "quick / 7e4 thorough over 10 same-CRS families x placements x padding/align and 10 CRSs, plus fixed probes: curved source edges, curved destination edges (fine wide strips), rasters ending on the antimeridian.",
       _TB + " compute_reproject_roi has no caller inside odc-geo, so only direct calls are observed.", "DESIGN.md 5/C03")
 
 claim("C10", "differential monitor: numpy paste of the planned regions vs GDAL nearest-neighbour warp through the real rio_reproject, bit for bit, per dtype; paste_ok vs generator labels",
       "Every paste-able pair with read_shrink 1 is executed both ways for 8 dtypes (incl. the int8/bool detour, explicit and default nodata) and compared exactly; for larger shrink factors the "
       "source region must be the destination region times the factor; paste_ok must agree with how the pair was built (integer scale and whole-pixel shift within ttol/stol on either side of "
-      "the tolerance, per axis; never for rotation/shear/fractional scale). ~1.8e3 pairs and ~9e3 warps quick, 3e4 / 1.5e5 thorough.",
+      "the tolerance, per axis, stol in {1e-3, 1e-2, 1e-4}; never for rotation/shear/fractional scale). ~1.8e3 pairs and ~9e3 warps quick, 3e4 / 1.5e5 thorough.",
       _TB + " GDAL is the reference warper; only binary-exact grids so ties cannot occur.", "DESIGN.md 5/C10")
 
-claim("C11", "post-condition monitor on compute_output_geobox (also reached via GeoBox.to_crs and .odc.output_geobox): all source pixel corners projected with the oracle's own pyproj transformer",
+claim("C11", "post-condition monitor on compute_output_geobox and on GeoBox.to_crs itself (also reached via .odc.output_geobox): all source pixel corners projected with the oracle's own pyproj transformer",
       "Result must be axis-aligned in the requested CRS and contain every projected source pixel corner up to tol output pixels; default anchor => edges on multiples of the pixel size; "
       "shared units with auto/same => source resolution; explicit resolution exact; shape requests exact (integer: n, or n+1 only with snapping) and displaced < 1 px + the 0.9 source-pixel "
       "buffer; same CRS + defaults => identical object; utm / utm-n / utm-s => UTM zone set, requested hemisphere, valid area overlapping the raster. ~550 requests quick / 1.2e4 thorough "
-      "plus fixed many-pixel curvature probes.",
+      "plus fixed many-pixel curvature probes (tile- and region-sized, north-up and rotated), own-CRS requests with non-default options, and authority-axis-order transformers requested first for half of the CRS pairs.",
       _TB + " Rasters above 7e4 corners use every outline corner and every 7th interior one.", "DESIGN.md 5/C11")
 
 claim("C12", "reference-model monitor: brute force over all tiles with shapely footprints (numpy matrices, the oracle's own pyproj transformer) vs GeoboxTiles.tiles / range_from_bbox / grid_intersect",
       "For each seeded tiling (regular/variable, 7 affine families) and query (polygon or bounding box; inside, straddling each edge, touching, outside, larger; same or other CRS) the reported "
       "tiles must contain every tile sharing more than a sliver with the query and, for geometries, only tiles not disjoint from it; for each pair of tiled rasters every (destination, source) "
-      "tile pair with more than a sliver of common footprint must be an edge, and rasters separated by > 2 px must give no edge and no exception. ~830 queries + 420 graphs quick.",
+      "tile pair with more than a sliver of common footprint must be an edge, and rasters separated by > 2 px must give no edge and no exception; global source x regional destination graphs are judged in the source CRS, near-integer pixel-size ratios on 3000-8000 px rasters by interval arithmetic. ~830 queries + 490 graphs quick. Known finding K5 is classified by mechanism.",
       _TB + " Cross-CRS bounding-box queries are skipped (a 4-point polygon by design).", "DESIGN.md 5/C12")
 
 claim("C06", "history checker over recorded PartsWriter calls (unique chunk ids, position-dependent bytes) + invariant hook on MPUChunk (byte conservation, credits, increasing ids); exhaustive merge trees; real dask under random topological orders and thread pools",
@@ -101,7 +101,7 @@ claim("C05", "file-content monitor: every file written by save_cog_with_dask(...
       "Per configuration: GDAL pixels/dtype/band order/padding/transform/CRS/nodata and overview factors; tifffile: IFD count = levels+1 with levels re-derived from the statement, padded shape a "
       "multiple of 2^levels, each overview exactly half, tile sizes multiples of 16 and as requested, all (offset,bytecount) intervals contiguous up to EOF with no gap/overlap, every overview "
       "level stored before larger ones, level-0 decode equals the source, nearest overviews drawn from their 2x2 parent block; sink history (ids, sizes >= 4096 but the last, finalise once, "
-      "sum = file size). ~100 files quick / 1e4 thorough over shapes 1..200, 3 layouts, 8 dtypes, 8 blocksize lists, 4 compressions, random topological orders and 2-8 threads.",
+      "sum = file size). ~115 files quick / 1e4 thorough over shapes 1..256, 3 layouts (sample-axis chunking incl.), 8 dtypes, 10 blocksize lists, 4 compressions, constant-area data, file and fake-S3 destinations, random topological orders and 2-8 threads; non-termination is decided by a logical bound on writes, the wall-clock watchdog is inconclusive.",
       _TB + " Known finding K4 (band-first cubes) is classified by mechanism.", "DESIGN.md 5/C05")
 
 claim("C18", "deterministic thread-schedule controller (sys.monitoring LINE yield points + cooperative lock + modelled linearizable distributed Variable/Lock) with a history checker over a fake S3 client's single log; file-system audit hook for the file sink; limit accessors enumerated",
@@ -115,19 +115,19 @@ claim("C13", "differential monitor: xr_reproject on dask-backed data (computed u
       "Per case both results must have the same shape/dtype; for same-CRS nearest they must be identical (nearest ties excluded off binary-exact grids); every destination pixel whose centre "
       "maps > 2 px outside the source must hold the fill value (nodata, else NaN for floats, else 0) in both results - so empty chunks, partially covered chunks and the in-memory path agree "
       "across seams; disjoint rasters give all-fill without an exception. ~270 cases quick / 5.6e4 thorough over 10 same-CRS kinds + cross-CRS, 1-pixel and non-dividing chunkings, 6 dtypes, "
-      "time axis, nearest/bilinear, ~240 distinct execution orders per quick run.",
+      "time axis, nearest/bilinear, explicit dst_nodata, nodata areas in the data, global sources, two chunkings inside one dask expression, ~240 distinct execution orders per quick run. Known finding K5 is classified by mechanism.",
       _TB + " GDAL is shared by both paths.", "DESIGN.md 5/C13")
 
 claim("C09", "history monitor with tracker index vectors: after every step the GeoBox recovered through .odc must place each remaining element where its original pixel was (numpy matrices) and agree with the labels; round-trip and reprojection outputs compared with the requested GeoBox",
       "Per history (1-6 steps of strided/reversed slicing, arithmetic, comparison, astype, pickle, copy; 7 affine families incl. rotated/sheared, 1xN/Nx1/1x1 with CRS, 3 ranks, numpy and dask) "
-      "positions are checked for every remaining pixel and labels for axis-aligned boxes; wrap -> .odc.geobox must return shape, CRS and corners to 1e-6 px (GCP boxes structurally); "
+      "positions are checked for every remaining pixel and labels for axis-aligned boxes; wrap -> .odc.geobox must return shape, CRS and corners to 1e-6 px (GCP boxes, fresh and zoomed / cropped / padded: same pixel->world mapping on a probe grid); "
       "xr_reproject / .odc.reproject of DataArrays and Datasets to GeoBoxes, CRS strings and 'utm' must yield the destination GeoBox on the container and each variable, CRS included, "
-      "without crs/crs_wkt/grid_mapping/gcps/epsg attrs and with non-spatial variables passed through. ~1.5e3 histories + 350 reprojections quick.",
+      "without crs/crs_wkt/grid_mapping/gcps/epsg attrs on variables and on the Dataset and with non-spatial variables passed through; an operation after reprojection keeps the registration. ~1.5e3 histories + 350 reprojections quick.",
       _TB + " Bit-equality of recovered transforms is logged, not demanded (labels are floats).", "DESIGN.md 5/C09")
 
 claim("C15", "file-content monitor: every output of write_cog / to_cog / write_cog_layers is read back with rasterio (and tifffile for the tiling flag), overwrite protocol observed through a sys.addaudithook file-system recorder",
       "Per configuration: pixels, dtype, band count/order, transform, CRS, nodata identical; internally tiled with block sizes multiples of 16 and shrunk to small images; exactly the requested "
       "overview levels with sizes ceil(N/level) (none by default under 512 px, [2..32] from 512), externally supplied overviews stored pixel-identical and in order; existing destination + "
       "overwrite=False => IOError with content hash / inode / mtime unchanged and no write-open, unlink or rename event on it; overwrite=True => replaced. ~330 writes quick / 2e4 thorough over "
-      "shapes 1..700, 3 layouts, 8 dtypes, rotated transforms, block sizes incl. non-multiples, windowed writes, intermediate compression, file and memory destinations.",
+      "shapes 1..700, 3 layouts, 8 dtypes, rotated transforms, block sizes incl. non-multiples, windowed writes, intermediate compression, file and memory destinations, constant-area data, nodata by keyword, ambient GDAL configurations.",
       _TB + " GDAL is both writer backend and reader.", "DESIGN.md 5/C15")
